@@ -230,20 +230,12 @@ def coq_compile_capture(vfile, timeout=600):
     `Print Assumptions` output is captured on every run."""
     # The output goes to a scratch .vo so that the real one keeps its time stamp (files that depend on it,
     # e.g. the Link_*.v compositions, are not rebuilt on every run).
-    d = os.path.join(COQ, "cases")
+    d = os.path.join(COQ, "cases", "capture_%d" % os.getpid())
     os.makedirs(d, exist_ok=True)
-    tmp = os.path.join(d, "capture_%d_%s.vo" % (os.getpid(), os.path.basename(vfile)[:-2]))
+    tmp = os.path.join(d, os.path.basename(vfile)[:-2] + ".vo")   # coqc requires the same base name
     with CoqLock("linkgate", shared=True):
         rc, so, se, dt = run(["timeout", str(timeout), "coqc", "-Q", ".", "Dae", "-o", tmp, vfile], cwd=COQ, timeout=timeout + 30)
-    for ext in ("", "k", "s"):
-        try:
-            os.remove(tmp + ext)
-        except OSError:
-            pass
-    try:
-        os.remove(tmp[:-3] + ".glob")
-    except OSError:
-        pass
+    shutil.rmtree(d, ignore_errors=True)
     return rc == 0, so + se
 
 
